@@ -318,7 +318,7 @@ def swan(rng, d, opts):
         cart = np.where(cart > 180, cart - 360, cart)
         dt_, dfile = _parse("%10.4f", cart)
         th_true = (270.0 - dfile) % 360.0
-    x = np.round(rng.uniform(0, 359, ns), 6)
+    x = np.round(rng.uniform(0, 359, ns) if rng.random() < 0.6 else rng.uniform(-179, 179, ns), 6)      # either longitude convention
     y = np.round(rng.uniform(-70, 70, ns), 6)
     L = ["SWAN   1                                Swan standard spectral file, version", "$   Data produced by SWAN version 41.31", "$   Project: test ; run number: 1"]
     if opts["time"]:
